@@ -40,7 +40,8 @@ Sim == /\ DEPTH > 0 /\ Len(hist) < LEN
                                           [o |-> "poke"],
                                           \* now and then the query time-out strikes in the middle, and another lookup follows (possibly while requests of
                                           \* the one before are still unanswered: "#1" then names such a request)
-                                          IF Rnd(1..3) = 1 THEN [o |-> "age", ms |-> 61000] ELSE [o |-> "age", ms |-> 700],
+                                          \* (or half of it: two of these with answers in between leave a lookup past its deadline that has just sent requests)
+                                          IF Rnd(1..3) = 1 THEN [o |-> "age", ms |-> 61000] ELSE IF Rnd(1..2) = 1 THEN [o |-> "age", ms |-> 31000] ELSE [o |-> "age", ms |-> 700],
                                           IF Rnd(1..2) = 1 THEN (IF Rnd(1..3) = 1 THEN [o |-> "lookup", target |-> [peer |-> P(Rnd(1..40))], pred |-> "udp4", k |-> Rnd({1, 2})]
                                                                  ELSE [o |-> "lookup", target |-> [peer |-> P(Rnd(1..40))]])
                                           ELSE [o |-> "fail", req |-> "#" \o ToString(Rnd({1, 2, 3}))]}))
